@@ -169,3 +169,40 @@ CONTRACTS = {
         "ensures": [("value", "bval(result) == i + 1"), ("letters", "letters(result)"), ("nonempty", "len(result) >= 1")],
     },
 }
+
+
+# ---- T3 lemmas (pure mathematics over the spec functions; independent of the repository) -------------------
+def _lemma_val26_step():
+    d, q, m, P, B = z3.Ints("d q m P B")
+    mm = (d - 1) % 26
+    dd = (d - mm) / 26
+    linear = z3.ForAll([d], z3.Implies(d > 0, z3.And(d == 26 * dd + mm + 1, mm >= 0, mm < 26, dd >= 0, dd < d)))
+    # with d = 26 q + m + 1:  V(q, c+s) = q*(26P) + ((m+1)P + B)  equals  V(d, s) = d*P + B     (P = 26**len(s), B = bval(s))
+    poly = z3.ForAll([q, m, P, B], q * (26 * P) + ((m + 1) * P + B) == (26 * q + m + 1) * P + B)
+    return [("division", linear), ("polynomial", poly)]
+
+
+def _lemma_bval_order(maxlen=5):
+    """length-then-alphabetical order on non-empty A-Z strings  <=>  numeric order of bval, for lengths <= maxlen
+    (26 + ... + 26**5 = 12 356 630 names > the 10**6 of the statement's quantifier)."""
+    goals = []
+    for n in range(1, maxlen + 1):
+        s = [z3.Int("s%d" % k) for k in range(n)]
+        t = [z3.Int("t%d" % k) for k in range(n)]
+        dom = z3.And(*[z3.And(x >= 1, x <= 26) for x in s + t])
+        val = lambda ds: sum(ds[k] * 26 ** (len(ds) - 1 - k) for k in range(len(ds)))
+        lex = z3.Or(*[z3.And(*([s[j] == t[j] for j in range(k)] + [s[k] < t[k]])) for k in range(n)])
+        goals.append(("same_length_%d" % n, z3.ForAll(s + t, z3.Implies(dom, lex == (val(s) < val(t))))))
+        u = [z3.Int("u%d" % k) for k in range(n + 1)]
+        dom2 = z3.And(*[z3.And(x >= 1, x <= 26) for x in s + u])
+        goals.append(("shorter_first_%d" % n, z3.ForAll(s + u, z3.Implies(dom2, val(s) < val(u)))))
+    return goals
+
+
+LEMMAS = {
+    "C20/lemma.val26.step": {"props": ["C20"], "build": _lemma_val26_step,
+                             "text": "one step of the bijective base-26 conversion preserves d*26**len(s) + bval(s)"},
+    "C20/lemma.bval.order": {"props": ["C20"], "build": _lemma_bval_order,
+                             "text": "bval is strictly monotone for the length-then-alphabetical order (lengths <= 5), hence injective: "
+                                     "distinct indices get distinct names, enumerated in that order"},
+}
